@@ -8,7 +8,7 @@ def parseResF (s : String) : Option Res :=
 
 def parsePlan (s : String) : Option (List PT) :=
   if s == "-" then some []
-  else s.toList.mapM (fun c => if c == 'f' then some PT.f else if c == 'l' then some PT.l else if c == 'x' then some PT.x else none)
+  else s.toList.mapM (fun c => if c == 'f' then some PT.f else if c == 'l' then some PT.l else if c == 'x' then some PT.x else if c == 'p' then some PT.p else none)
 
 def parseHas (s : String) : Option Has :=
   if s == "all" then some .all else if s == "none" then some .none else if s == "mixed" then some .mixed else none
@@ -41,7 +41,7 @@ def parseObsTokF (o : Obs) (t : String) : Option Obs :=
 
 def faultArm (retries : Nat) (op : FOp) : String :=
   let planArm (a lead : Nat) (plan : List PT) : String :=
-    (if plan.contains .x then "X" else if a == lead then "L" else "F") ++ ":" ++
+    (if plan.contains .p then "P" else if plan.contains .x then "X" else if a == lead then "L" else "F") ++ ":" ++
     (if plan.isEmpty then "k0" else if plan.length > retries + 1 then "kall" else if plan.length == retries + 1 then "kr+1"
      else if plan.length == retries then "kr" else "k" ++ toString plan.length) ++
     (if plan.contains .l then (if plan.contains .f then ":mixed" else ":lost") else if plan.isEmpty then "" else ":refused")
